@@ -686,7 +686,9 @@ pub fn check_strat_t<T: SEl>(c: &StratCase) -> CheckResult {
                 ensure!(last > mx, "wrong-value", "column {}: last edge {:?} is not strictly above the data maximum {:?} ({:?}, min {:?}, width {:?}, {} bins): the maximum falls into no bin", ci, last, mx, c.strat, mn, b.width, nb);
                 if T::FLOAT {
                     let w = b.width.as_f();
-                    let maxedge = edges.iter().fold(0.0f64, |m, e| m.max(e.as_f().abs()));
+                    // the documented placement is `min + i*width`: the product i*width is rounded at
+                    // ITS magnitude, which exceeds every edge when the minimum is negative
+                    let maxedge = edges.iter().fold(0.0f64, |m, e| m.max(e.as_f().abs())).max((last.as_f() - edges[0].as_f()).abs());
                     let u2 = 2.0 * ulp64(maxedge);
                     ensure!(last.as_f() - mx.as_f() <= w + u2, "wrong-value", "column {}: last edge {:?} exceeds the maximum {:?} by more than one bin width {:?}", ci, last, mx, b.width);
                     let separated = w >= 4.0 * ulp64(maxedge);
